@@ -29,16 +29,16 @@ Mechs == <<
   (* expressions_error: rule-level expressions whose evaluation fails on the answer (no verdict at all); *)
   (* rendered_payload: same template, rendered from another request                                       *)
   [m |-> "remote_authorizer", policy |-> <<"expressions", "expressions_error">>,
-   inputs |-> <<"ep_url", "ep_method", "ep_headers", "id", "fwd_headers", "payload", "ttl", "subject_id", "subject_attr", "values", "rendered_payload", "ep_auth", "ep_apikey", "ep_httpsig", "ep_header_lc">>,
+   inputs |-> <<"ep_url", "ep_method", "ep_headers", "id", "fwd_headers", "payload", "ttl", "subject_id", "subject_attr", "values", "rendered_payload", "ep_auth", "ep_apikey", "ep_httpsig", "ep_header_lc", "ep_apikey_cookie", "ep_apikey_query">>,
    shifts |-> <<"ep_headers.k|v", "id|fwd_headers", "fwd_headers|payload", "values.k|v", "ep_auth.k|v", "ep_apikey.k|v", "ep_httpsig.k|v">>, hdr |-> TRUE, val |-> TRUE, hdrdef |-> 0],
   [m |-> "generic_contextualizer", policy |-> <<>>,
-   inputs |-> <<"ep_url", "ep_method", "ep_headers", "id", "fwd_headers", "fwd_cookies", "payload", "ttl", "subject_id", "subject_attr", "values", "rendered_payload", "ep_auth", "ep_apikey", "ep_httpsig", "ep_header_lc">>,
+   inputs |-> <<"ep_url", "ep_method", "ep_headers", "id", "fwd_headers", "fwd_cookies", "payload", "ttl", "subject_id", "subject_attr", "values", "rendered_payload", "ep_auth", "ep_apikey", "ep_httpsig", "ep_header_lc", "ep_apikey_cookie", "ep_apikey_query">>,
    shifts |-> <<"ep_headers.k|v", "fwd_headers|fwd_cookies", "fwd_cookies|payload", "values.k|v", "ep_auth.k|v", "ep_apikey.k|v", "ep_httpsig.k|v">>, hdr |-> TRUE, val |-> TRUE, hdrdef |-> 0],
   [m |-> "generic_authenticator", policy |-> <<"session_lifespan">>,
-   inputs |-> <<"ep_url", "ep_headers", "credential", "payload", "ep_auth", "ep_apikey", "ep_header_lc">>,
+   inputs |-> <<"ep_url", "ep_headers", "credential", "payload", "ep_auth", "ep_apikey", "ep_header_lc", "ep_apikey_cookie", "ep_apikey_query">>,
    shifts |-> <<"ep_headers.k|v", "ep_auth.k|v", "ep_apikey.k|v">>, hdr |-> TRUE, val |-> FALSE, hdrdef |-> 0],
   [m |-> "oauth2_introspection", policy |-> <<"assertions">>,
-   inputs |-> <<"ep_url", "ep_headers", "credential", "ep_auth", "ep_apikey", "ep_header_lc">>,
+   inputs |-> <<"ep_url", "ep_headers", "credential", "ep_auth", "ep_apikey", "ep_header_lc", "ep_apikey_cookie", "ep_apikey_query">>,
    shifts |-> <<"ep_headers.k|v", "ep_auth.k|v", "ep_apikey.k|v">>, hdr |-> TRUE, val |-> FALSE, hdrdef |-> 2],
   (* the same authenticator configured by the server's metadata document (endpoint and issuer discovered) *)
   [m |-> "oauth2_introspection_md", policy |-> <<"assertions">>,
